@@ -73,7 +73,8 @@ def r1_effects(facts, rep):
     local = sorted(p for p in reach if p in cg.local)
     rep.count("functions reachable from arithmetic roots", len(local))
     # the integer power of a unit legitimately converts the exponent to i32 (checked, with an error on failure)
-    allowed = {("eval::pow", "to_i32")}
+    # (in eval::pow or a helper only it uses; C04-R1 decides what becomes of the converted exponent)
+    allowed = {(q, "to_i32") for q in cg.exclusive("eval::pow")}
     for p in local:
         b = cg.local[p]
         floats = [l["id"] for l in b.locals if l["ty"] in ("f32", "f64") or re.search(r"\bf(32|64)\b", l["ty"])]
@@ -469,7 +470,7 @@ def pow_piecewise(dom, body, outs, rep):
             val = Fraction(1) if e == 0 else b ** int(e)
         return errs, val
 
-    n_ok = n_err = 0
+    n_ok = n_err = n_infeasible = 0
     zero_neg_seen = False
     for idx, o in enumerate(outs):
         pc = dom.pc(o.store)
@@ -513,6 +514,10 @@ def pow_piecewise(dom, body, outs, rep):
         except ZeroDivisionError:
             bad = "the value divides by zero at a grid point that satisfies the path condition (the division is not guarded)"
         if bad is None and hits == 0 and not overflow_event:
+            if evalterm.sign_contradiction(pc):
+                # an infeasible path of the summary (e.g. sign = Plus in one helper, is_negative in the next): nothing to compare
+                n_infeasible += 1
+                continue
             bad = "no grid point satisfies the path condition %s: an unreachable or unrecognised case" % pcs
         if u[0] == "ok":
             n_ok += 1
